@@ -106,6 +106,20 @@ def worker_main(a):
                 rep["hashseeds"] = [rec["pythonhashseed"], hashseed]
                 rep["observed"] = {"numdigest_a": rec["numdigest"], "numdigest_b": ctx.numdigest.hex(), "violation_b": v.to_json() if v else None}
                 rep["minimised"] = False
+                # minimise: cut the op list after the first op whose numbers differ
+                a_log, b_log = rec.get("numlog", []), ctx.numlog
+                first = None
+                for x, y in zip(a_log, b_log):
+                    if x != y:
+                        first = x[0]
+                        break
+                if first is not None and first + 1 < len(rec["ops"]):
+                    rep["original_ops"] = len(rec["ops"])
+                    rep["ops"] = rec["ops"][: first + 1]
+                    rep["observed"]["first_differing_op"] = first
+                    rep["minimised"] = True
+                for k in ("numlog", "numdigest", "digest"):
+                    rep.pop(k, None)
                 p = runner.write_replay(rep, a["scratch"])
                 out.write(json.dumps({"type": "violation", "path": p, "cls": rep["violation_class"], "run": rec["run_index"]}) + "\n")
                 agg["violations"] += 1
@@ -149,7 +163,7 @@ def worker_main(a):
             rec = {
                 "format": runner.FORMAT, "property": prop, "verif_seed": seed, "run_index": idx, "pythonhashseed": hashseed,
                 "entropy_seed": "%d:%d" % (seed, idx), "config": ctx.cfg, "params": ctx.params, "ops": ctx.ops_out,
-                "numdigest": ctx.numdigest.hex(), "digest": ctx.digest.hex(),
+                "numdigest": ctx.numdigest.hex(), "digest": ctx.digest.hex(), "numlog": ctx.numlog,
             }
             with open(os.path.join(a["hs_dir_out"], "%08d.json" % idx), "w") as f:
                 json.dump(rec, f)
